@@ -12,11 +12,27 @@ SER_CLS = {'Series': sf.Series, 'SeriesHE': sf.SeriesHE}
 FRM_CLS = {'Frame': sf.Frame, 'FrameGO': sf.FrameGO, 'FrameHE': sf.FrameHE}
 
 
+def restore(obj, item):
+    '''same labels, another storage of the index array: a wider string dtype, another integer width, floats for whole numbers, object'''
+    how = item.get('index_storage')
+    labels = [P.dec(x) for x in item['index']]
+    if not how or not labels:
+        return obj
+    if all(isinstance(x, str) for x in labels):
+        arr = np.array(labels, dtype='<U9') if how != 'object' else np.array(labels, dtype=object)
+    elif all(isinstance(x, int) and not isinstance(x, bool) for x in labels):
+        arr = np.array(labels, dtype={'int32': np.int32, 'float': np.float64, 'wide': np.int16 if max(abs(x) for x in labels) < 30000 else np.int32, 'object': object}[how])
+    else:
+        return obj
+    arr.flags.writeable = False
+    return obj.relabel(index=sf.Index(arr))
+
+
 def build(item, layout=None):
     if item['kind'] == 'series':
-        return P.build_series({'index': item['index'], 'vals': item['vals'], 'dt': item['dt'], 'name': item['name']}, cls=SER_CLS[item['cls']])
+        return restore(P.build_series({'index': item['index'], 'vals': item['vals'], 'dt': item['dt'], 'name': item['name']}, cls=SER_CLS[item['cls']]), item)
     af = {'index': item['index'], 'columns': item['columns'], 'cols': item['cols'], 'name': item['name']}
-    return P.build_frame(af, layout, cls=FRM_CLS[item['cls']])
+    return restore(P.build_frame(af, layout, cls=FRM_CLS[item['cls']]), item)
 
 
 def variants(rng, base):
@@ -151,6 +167,9 @@ def main(ctx):
         if i % 3 == 0:
             # HE variants of every item
             hitems = [dict(it, cls='SeriesHE' if it['kind'] == 'series' else 'FrameHE') for it in items]
+            # equal labels held in differently stored index arrays are the same labels: == and hash must not see the storage
+            for it in list(hitems[:3]):
+                hitems.append(dict(it, index_storage=ctx.rng.choice(['wide', 'int32', 'float', 'object'])))
             hobjs = [build(it, layouts_for_item(ctx.rng, it)) for it in hitems]
             try:
                 eq = [[(a == b) for b in hobjs] for a in hobjs]
